@@ -422,7 +422,12 @@ def pool_full():
     ops += [("set_filter", "u", 10, 2, 0), ("set_filter", ":v", 11, 0, 0),
             ("set_filter", "u", 11, 10, 0),
             # names are case-sensitive: 'U' is not 'u', 'Int' not 'int'
-            ("set_filter", "U", 10, 0, 0), ("set_filter", "Int", 11, 2, 0)]
+            ("set_filter", "U", 10, 0, 0), ("set_filter", "Int", 11, 2, 0),
+            # a definition without converter means str, also for a name
+            # that exists with another converter (built-in or user's)
+            # (built-ins no route of the pool uses)
+            ("set_filter", "hex", 11, 2, 1), ("set_filter", "float", 10, 2, 1),
+            ("set_filter", ":v", 10, 2, 1), ("set_filter", "uuid", 11, 2, 1)]
     for h in (0, 1):
         for name in ("add_before", "pop_before", "add_after", "pop_after"):
             ops.append((name, h, 0))
@@ -533,7 +538,8 @@ def hostile_op(rng):
         return ("set_filter", rng.choice(["", ":", ":x", ":hex", "word",
                                           "u", "::", "U", "Word", ":HEX",
                                           "Int"]),
-                rng.choice((10, 11)), rng.choice((0, 2, 10)), 0)
+                rng.choice((10, 11)), *rng.choice(((0, 0), (2, 0), (2, 1),
+                                                   (10, 0))))
     if choice == 1:
         return (rng.choice(("add_before", "pop_before", "add_after",
                             "pop_after")), rng.randrange(2), 0)
